@@ -35,6 +35,7 @@ def cargo_test(tests, scratch, timeout=1500, extra_env=None):
     env["VERIF_DIR"] = VERIF
     env.update(extra_env or {})
     res = {}
+    blanked = _isolate_broken_replay_files(env, scratch, timeout)
     for t in tests:
         cmd = ["cargo", "test", "--offline", "--lib", "--features", FEATURES, t, "--", "--exact", "--nocapture", "--test-threads", "1"]
         p = subprocess.Popen(cmd, cwd=REPO, env=env, stdout=subprocess.PIPE, stderr=subprocess.STDOUT, text=True, start_new_session=True)
@@ -49,10 +50,53 @@ def cargo_test(tests, scratch, timeout=1500, extra_env=None):
         passed = ran and "test result: ok. 1 passed" in out
         failed = ran and ("test result: FAILED" in out or "panicked at" in out)
         if not ran:
-            res[t] = (None, "replay test did not run (build failure or test not found)\n" + out[-4000:])
+            why = "replay test did not run (build failure or test not found)"
+            if blanked:
+                why += "; replay file(s) that do not compile against this tree were left out of the build: %s" % ", ".join(sorted(blanked))
+            res[t] = (None, why + "\n" + out[-4000:])
         else:
             res[t] = (passed and not failed, " ".join(cmd) + "\n" + out[-4000:])
     return res
+
+
+def _isolate_broken_replay_files(env, scratch, timeout):
+    """The replay templates are compiled INTO the crate under test and may name private items.  A change that renames
+    or re-types such an item breaks the build of the whole test binary, and with it every replay and every bounded
+    stand-in of every property.  To keep that local: build once; if the compiler reports errors located in
+    /verif/replays/<f>.rs, point VERIF_DIR at a scratch copy of the replay directory in which exactly those files are
+    empty and build again.  Tests of the blanked files then "did not run" (undecided, never an alarm); all others run.
+    Mutates env["VERIF_DIR"]; returns the set of blanked file names."""
+    import re
+    import shutil
+    blanked = set()
+    src = os.path.join(VERIF, "replays")
+    for _ in range(4):
+        cmd = ["cargo", "test", "--offline", "--lib", "--features", FEATURES, "--no-run"]
+        p = subprocess.Popen(cmd, cwd=REPO, env=env, stdout=subprocess.PIPE, stderr=subprocess.STDOUT, text=True, start_new_session=True)
+        try:
+            out, _ = p.communicate(timeout=timeout)
+        except subprocess.TimeoutExpired:
+            os.killpg(p.pid, signal.SIGKILL)
+            p.communicate()
+            return blanked
+        if p.returncode == 0:
+            return blanked
+        bad = set(re.findall(r"-->\s*%s/([A-Za-z0-9_]+\.rs):" % re.escape(os.path.join(env["VERIF_DIR"], "replays")), out)) - blanked
+        if not bad:
+            return blanked  # the crate itself does not build (or the error is elsewhere): nothing to isolate
+        blanked |= bad
+        alt = os.path.join(scratch, "verif_alt")
+        shutil.rmtree(alt, ignore_errors=True)
+        os.makedirs(os.path.join(alt, "replays"))
+        for f in os.listdir(src):
+            if not f.endswith(".rs"):
+                continue
+            if f in blanked:
+                open(os.path.join(alt, "replays", f), "w").write("// left out: does not compile against the tree under test\n")
+            else:
+                shutil.copy(os.path.join(src, f), os.path.join(alt, "replays", f))
+        env["VERIF_DIR"] = alt
+    return blanked
 
 
 def run_for(obligation, scratch, extra_env=None):
